@@ -391,15 +391,82 @@ def check_lookup(ctx):
     ctx.check("C03.M", "_make_args_operands:args-then-operands", ok, "_make_args_operands does not set operands = args + operands", repo.loc(m, mao) if mao else "")
 
 
+def check_fresh_operands(ctx):
+    """C03.S: _replace_constants rewrites operands in place, so every parsed operand must be an object of its own:
+    nothing on the parsing path may be memoised or served from a module-level container."""
+    repo = ctx.repo
+    m = repo.module(TEXT_MOD)
+    rc = m.functions.get("_replace_constants")
+    inplace = [n for n in ast.walk(rc) if (isinstance(n, ast.Call) and dotted(n.func) == "setattr") or
+               (isinstance(n, ast.Assign) and any(isinstance(t, ast.Attribute) for t in n.targets))] if rc is not None else []
+    ctx.note(f"_replace_constants rewrites operands in place at {len(inplace)} site(s)")
+    if not inplace:
+        return  # operands are rebuilt: sharing them would be harmless
+    mods = [m, repo.module("netqasm.lang.operand")]
+    module_level = {}
+    for mod in mods:
+        for st in mod.tree.body:
+            for t in (st.targets if isinstance(st, ast.Assign) else [st.target] if isinstance(st, ast.AnnAssign) else []):
+                if isinstance(t, ast.Name) and isinstance(getattr(st, "value", None), (ast.Dict, ast.List, ast.Set, ast.DictComp, ast.ListComp, ast.Call)):
+                    module_level[(mod.name, t.id)] = st
+    # functions that can hand out an operand object: they construct a class of operand.py, or call such a function
+    opclasses = set(mods[1].classes)
+    allf = {(mod.name, qn): fn for mod in mods for _m, qn, fn, _c in repo.iter_functions(mod.name) if _m is mod}
+    producers = {k for k, fn in allf.items() if any((A.call_name(c) or "") in opclasses for c in A.calls_in(fn))}
+    changed = True
+    while changed:
+        changed = False
+        pn = {k[1].split(".")[-1] for k in producers}
+        for k, fn in allf.items():
+            if k not in producers and any((A.call_name(c) or "") in pn for c in A.calls_in(fn)):
+                producers.add(k)
+                changed = True
+    n = 0
+    for mod in mods:
+        for _m, qn, fn, _c in repo.iter_functions(mod.name):
+            if _m is not mod or (mod.name, qn) not in producers:
+                continue
+            n += 1
+            memo = []
+            for dec in fn.decorator_list:
+                dn = dotted(dec.func if isinstance(dec, ast.Call) else dec) or src(dec)
+                imp = mod.imports.get(dn.split(".")[0])
+                head = ".".join(str(x) for x in imp if x) if isinstance(imp, tuple) else (imp or dn.split(".")[0])
+                target = head + ("." + ".".join(dn.split(".")[1:]) if "." in dn else "")
+                if any(k in target.lower() for k in ("cache", "memo")):
+                    memo.append(src(dec))
+            stores = []
+            for x in A.body_nodes(fn):
+                tgt = None
+                if isinstance(x, ast.Assign) and isinstance(x.targets[0], ast.Subscript) and isinstance(x.targets[0].value, ast.Name):
+                    tgt = x.targets[0].value.id
+                elif isinstance(x, ast.Call) and isinstance(x.func, ast.Attribute) and isinstance(x.func.value, ast.Name) and x.func.attr in ("setdefault", "append", "update", "add"):
+                    tgt = x.func.value.id
+                if tgt is not None and (mod.name, tgt) in module_level and tgt not in A.assigned_names(fn) and tgt not in A.param_names(fn):
+                    stores.append(f"{tgt} <- {src(x)[:60]}")
+            ctx.check("C03.S", f"{mod.name.split('.')[-1]}.{qn}:returns-fresh-objects", not memo and not stores,
+                      f"{qn} is memoised ({'; '.join(memo + stores)}): two occurrences of the same operand text would be one object, and _replace_constants rewrites operands in place "
+                      "(setattr), so the literal of the second occurrence is never materialised", repo.loc(mod, fn), trivial=True)
+    ctx.anchor("C03.S", "operand-producing functions checked for memoisation", n, 8)
+
+
 def run(ctx):
     check_order(ctx)
     check_exception_table(ctx, "C03.X")
     check_scratch(ctx)
+    check_fresh_operands(ctx)
     check_lookup(ctx)
 
 
 T = "netqasm/lang/parsing/text.py"
 SEEDS = [
+    dict(id="c03-parse-address-memoised", edits=[
+        (T, "def parse_address(address: str)", "@lru_cache(maxsize=None)\ndef parse_address(address: str)"),
+        (T, "from itertools import count\n", "from itertools import count\nfrom functools import lru_cache\n")], expect="C03.S", construct="parse_address:returns-fresh-objects"),
+    dict(id="c03-operand-table-memo", edits=[
+        (T, "def _parse_operand(word: str):\n", "_OPERANDS = {}\n\n\ndef _parse_operand(word: str):\n    if word in _OPERANDS:\n        return _OPERANDS[word]\n    _OPERANDS[word] = _parse_operand_uncached(word)\n    return _OPERANDS[word]\n\n\ndef _parse_operand_uncached(word: str):\n")],
+        expect="C03.S", construct="_parse_operand:returns-fresh-objects"),
+
     dict(id="c03-drop-exception", file=T, expect="C03.X", construct="blt:pos2", old="    (GenericInstr.BLT, 2),\n", new=""),
     dict(id="c03-extra-exception", file=T, expect="C03.X", construct="store:pos0", old="    (GenericInstr.JMP, 0),\n", new="    (GenericInstr.JMP, 0),\n    (GenericInstr.STORE, 0),\n"),
     dict(id="c03-loop-index", file=T, expect="C03.X", construct="meas_basis:pos5", old="for index in [2, 3, 4, 5]:", new="for index in [2, 3, 4]:"),
@@ -421,6 +488,10 @@ SEEDS = [
          old="        new_command.lineno = command.lineno\n        instructions.append(new_command)", new="        new_command.lineno = command.lineno\n        if new_command.operands:\n            instructions.append(new_command)"),
 ]
 BENIGN = [
+    dict(id="c03-benign-memoised-predicate", edits=[
+        (T, "def _is_byte(value):", "@lru_cache(maxsize=None)\ndef _is_byte(value):"),
+        (T, "from itertools import count\n", "from itertools import count\nfrom functools import lru_cache\n")]),
+
     dict(id="c03-benign-table-literal", file=T, old="for index in [2, 3, 4, 5]:\n    _REPLACE_CONSTANTS_EXCEPTION.append((GenericInstr.MEAS_BASIS, index))",
          new="_REPLACE_CONSTANTS_EXCEPTION += [(GenericInstr.MEAS_BASIS, 2), (GenericInstr.MEAS_BASIS, 3), (GenericInstr.MEAS_BASIS, 4), (GenericInstr.MEAS_BASIS, 5)]"),
 ]
